@@ -118,6 +118,11 @@ func wfProto(p *FunctionProto) string {
 		case OP_SELF:
 			if !reg(a) || !reg(a+1) || !reg(b) || !rk(c) {
 				bad = "SELF operand"
+			} else if opIsK(c) {
+				// the method name of obj:name(...) is a string: a constant operand must name a string constant
+				if _, ok := p.Constants[opIndexK(c)].(LString); !ok {
+					bad = "SELF names a constant that is not a string"
+				}
 			}
 		case OP_ADD, OP_SUB, OP_MUL, OP_DIV, OP_MOD, OP_POW:
 			if !reg(a) || !rk(b) || !rk(c) {
@@ -277,8 +282,28 @@ func genConsts(n int) string {
 		sb.WriteString(itoa(i))
 		sb.WriteString("'\n")
 	}
-	sb.WriteString("local a = t.last; t.x = a + 7; return t.k1 .. 'z', t[2000] == a")
+	// string-keyed accesses, a method call and a method definition whose names are first mentioned here, i.e.
+	// at constant indexes around n
+	sb.WriteString("local a = t.last; t.x = a + 7; local o = {}; function o:mdef(v) return self, v end; o:mcall(a); return t.k1 .. 'z', t[2000] == a, o:mlast()")
 	return sb.String()
+}
+
+// genClosureOperands: function literals that capture an enclosing local, used directly where the compiler
+// folds a trailing MOVE into the consuming instruction (conditions, not, #, unary minus, index and method
+// receivers) — the capture words after CLOSURE look like MOVEs.
+func genClosureOperands() string {
+	return "local x, y = 1, 2; local r = 0; " +
+		"if function() return x end then r = r + 1 end; " +
+		"while not function() return y end do r = r + 1 end; " +
+		"repeat r = r + 1 until function() return x, y end; " +
+		"local b = not function() return x end; " +
+		"local ok1 = pcall(function() return #function() return y end end); " +
+		"local ok2 = pcall(function() return -function() return x end end); " +
+		"local ok3 = pcall(function() return (function() return x end).field end); " +
+		"local ok4 = pcall(function() return (function() return y end):method() end); " +
+		"local c = (function() return x end) and 1 or 2; local d = nil or function() return y end; " +
+		"local t = {}; pcall(function() ('abc').k = 1 end); pcall(function() (10).k = 2 end); (t).k = 3; " +
+		"return r, b, ok1, ok2, ok3, ok4, c, d"
 }
 
 func genItems(n int) string {
@@ -294,10 +319,12 @@ func genItems(n int) string {
 
 // C07.wf — every prototype the compiler produces is well-formed, or the compiler reports an error.
 //
-//verif:harness prop=C07 tier=quick bounds="all C01-C05 differential templates plus size-stress programs: locals in {1,100,198,199,200,201,250}, constants in {250,255,256,257,300,511,512,513,600}, constructor items in {1,49,50,51,100,120}; concrete programs (no symbolic input), each compiled once"
+//verif:harness prop=C07 tier=quick bounds="all C01-C05 differential templates plus size-stress programs: locals in {1,100,198,199,200,201,250}, constants in {250,255,256,257,300,511,512,513,600}, constructor items in {1,49,50,51,100,120}, method names and string keys first mentioned at those constant indexes, function literals capturing locals used as conditions and as operands of not, #, unary minus, indexing and method calls; concrete programs (no symbolic input), each compiled once"
 func H_C07_wf() {
 	var src string
-	switch VChoice(4) {
+	switch VChoice(5) {
+	case 4:
+		src = genClosureOperands()
 	case 0:
 		all := append(append(append(append(append([]diffTmpl{}, c01Templates...), c02Templates...), c03Templates...), c04Templates...), c05Templates...)
 		src = all[VChoice(len(all))].src
@@ -398,6 +425,29 @@ func H_C07_regbase() {
 //   local t = {7, 7, ... n items}   (or: local t; t = {...})
 //   local after = 'ran'; return #t, t[n], after
 // directly (parsing 25k items through the interpreted yacc tables would dominate the run).
+// bigCtorOperandChunk: the constructor is the direct operand of # and of an index, with no local in scope
+// (`x = #{...}; y = ({...})[n]; return x, y, 'ran'`): the word after the extended SETLIST is followed at once
+// by the consuming instruction.
+func bigCtorOperandChunk(n int) []ast.Stmt {
+	mk := func() *ast.TableExpr {
+		fields := make([]*ast.Field, n)
+		for i := range fields {
+			fields[i] = &ast.Field{Value: &ast.NumberExpr{Value: "7"}}
+		}
+		return &ast.TableExpr{Fields: fields}
+	}
+	stmts := []ast.Stmt{
+		&ast.AssignStmt{Lhs: []ast.Expr{&ast.IdentExpr{Value: "x"}}, Rhs: []ast.Expr{&ast.UnaryLenOpExpr{Expr: mk()}}},
+		&ast.AssignStmt{Lhs: []ast.Expr{&ast.IdentExpr{Value: "y"}}, Rhs: []ast.Expr{&ast.AttrGetExpr{Object: mk(), Key: &ast.NumberExpr{Value: itoa(n)}}}},
+		&ast.ReturnStmt{Exprs: []ast.Expr{&ast.IdentExpr{Value: "x"}, &ast.IdentExpr{Value: "y"}, &ast.StringExpr{Value: "ran"}}},
+	}
+	for _, st := range stmts {
+		st.SetLine(1)
+		st.SetLastLine(1)
+	}
+	return stmts
+}
+
 func bigCtorChunk(n int, assignForm bool) []ast.Stmt {
 	fields := make([]*ast.Field, n)
 	for i := range fields {
@@ -425,12 +475,16 @@ func bigCtorChunk(n int, assignForm bool) []ast.Stmt {
 
 // C07.bigctor — constructors beyond 511 SETLIST batches use the extension word correctly.
 //
-//verif:harness prop=C07,C01 tier=quick bounds="table constructors with n positional items, n in {25550, 25551, 25601} (batch 511/512 boundary), in initialisation and assignment form; AST built directly, compiled, checked for well-formedness and executed"
+//verif:harness prop=C07,C01 tier=quick bounds="table constructors with n positional items, n in {25550, 25551, 25601} (batch 511/512 boundary), in initialisation and assignment form and as the direct operand of # and of an index with no local in scope; AST built directly, compiled, checked for well-formedness and executed"
 func H_C07_bigctor() {
 	n := []int{25550, 25551, 25601}[VChoice(3)]
-	assignForm := VChoice(2) == 1
+	form := VChoice(3)
 	L := newL(Options{RegistrySize: 1024}, BaseLibName)
-	proto, err := Compile(bigCtorChunk(n, assignForm), "big")
+	chunk := bigCtorChunk(n, form == 1)
+	if form == 2 {
+		chunk = bigCtorOperandChunk(n)
+	}
+	proto, err := Compile(chunk, "big")
 	VAssert(err == nil, "bigctor: compiles")
 	VAssert(wfProto(proto) == "", "bigctor: prototype is well-formed: "+wfProto(proto))
 	L.Push(L.NewFunctionFromProto(proto))
